@@ -35,8 +35,9 @@ func (j *jsonRaw) UnmarshalJSON(b []byte) error { *j = append((*j)[:0], b...); r
 func (j jsonRaw) MarshalJSON() ([]byte, error)  { return j, nil }
 
 type lParam struct {
-	ID int `json:"id"`
-	B  B   `json:"b"`
+	ID    int  `json:"id"`
+	B     B    `json:"b"`
+	Known bool `json:"known"` // in the specification's table: has a field of its own; otherwise kept verbatim
 }
 
 type lCase struct {
@@ -99,7 +100,28 @@ func replayParams(c lCase, put func(sig, det string, c any)) {
 	det := reflect.ValueOf(&p.TerminalParamDetails).Elem()
 	p.TerminalParamDetails.OtherContent = map[uint32]model.ParamContent[[]byte]{}
 	for _, prm := range c.Params {
-		if f, ok := paramField(det, prm.ID); ok {
+		if f, ok := paramField(det, prm.ID); ok && !prm.Known {
+			// a field exists for an id the specification's (= Parse's) table does not list: the value that uses the field
+			// must round-trip as well; probed on its own so that the rest of the set is still judged
+			one := mk()
+			one.ParamTotal = 1
+			of := reflect.ValueOf(&one.TerminalParamDetails).Elem()
+			tf, _ := paramField(of, prm.ID)
+			tf.FieldByName("ID").SetUint(uint64(prm.ID))
+			tf.FieldByName("Len").SetUint(uint64(widthOf(tf.FieldByName("Value").Kind())))
+			tf.FieldByName("Value").SetUint(0x01020304)
+			back := mk()
+			m1 := jt808.NewJTMessage()
+			m1.Body = exact(one.Encode())
+			if err := back.Parse(m1); err != nil {
+				put(fmt.Sprintf("typed-parameter-rejected %04x", prm.ID), err.Error(), c)
+			} else if bf, _ := paramField(reflect.ValueOf(&back.TerminalParamDetails).Elem(), prm.ID); bf.FieldByName("Value").Uint() != 0x01020304 {
+				put(fmt.Sprintf("typed-parameter-filed-as-unknown %04x", prm.ID),
+					fmt.Sprintf("Encode writes the field of parameter %04x, Parse of those bytes leaves the field empty (the value lands in OtherContent)", prm.ID), c)
+			}
+			_ = f
+		}
+		if f, ok := paramField(det, prm.ID); ok && prm.Known {
 			f.FieldByName("ID").SetUint(uint64(prm.ID))
 			f.FieldByName("Len").SetUint(uint64(len(prm.B)))
 			setParamValue(f.FieldByName("Value"), prm.B)
@@ -130,7 +152,7 @@ func replayParams(c lCase, put func(sig, det string, c any)) {
 	qd := reflect.ValueOf(&q.TerminalParamDetails).Elem()
 	for _, prm := range c.Params {
 		var got []byte
-		if f, ok := paramField(qd, prm.ID); ok {
+		if f, ok := paramField(qd, prm.ID); ok && prm.Known {
 			if int(f.FieldByName("ID").Uint()) == prm.ID {
 				got = paramValueBytes(f.FieldByName("Value"), len(prm.B))
 			}
